@@ -3,6 +3,7 @@
    --check : only validate the committed JSON files structurally."""
 import json
 import os
+import re
 import sys
 
 VERIF = os.path.dirname(os.path.dirname(os.path.abspath(__file__)))
@@ -14,28 +15,34 @@ BASE_NOTE = ("Trusted: Coq 8.16.1 kernel (vm_compute, no native_compute); no axi
              "and by the correspondence streams (model vs implementation on the same inputs through the public API). ")
 
 # pid -> dict(claimed, text, note, technique, design)
-P = {
-    "C19": dict(
-        text="Theorems (all caption lists, all rational skews/offsets, all run structures): the model of "
-             "adjust_caption_timing equals filter(start'>=0) o map(t -> t*skew+off) with nodes and order kept; the "
-             "model of merge_concurrent_captions equals map join (maximal runs), never raises, is idempotent. "
-             "Correspondence: the extracted model and the property oracle are run against the real functions on "
-             "generated caption sets (node identity tracked).",
-        note="Python float arithmetic t*skew+offset is modelled exactly in Q; observations compared within 2^-10 us; "
-             "inputs whose retimed start lies within that margin of 0 are counted and excluded.",
-        technique="Coq proof (induction over caption lists) + extracted-model correspondence",
-        design="7 C19"),
-    "C20": dict(
-        text="Theorems over ALL strings: no sniffer raises on a non-empty string; detect_format returns the first "
-             "reader in the documented order whose own detect accepts; the order generated from SUPPORTED_READERS is "
-             "the documented one; the empty string raises the no-captions error. Correspondence: exhaustive short "
-             "strings over a marker alphabet, every truncation of writer outputs, random strings; own-output "
-             "detection + re-read for all six writers by execution.",
-        note="Own-output recognition (writer output is detected as its format and read back) is decided by "
-             "execution, not by a theorem; str.isdigit/str.lower outside ASCII are not modelled.",
-        technique="Coq proof (all strings) + extracted-model correspondence + exhaustive short-string sweep",
-        design="7 C20"),
-}
+def load_meta():
+    """meta/Cxx.json: {"text", "note", "technique", "design"[, "category"]} - one file per claimed property"""
+    P = {}
+    d = os.path.join(VERIF, "meta")
+    for f in sorted(os.listdir(d)):
+        if re.fullmatch(r"C\d\d\.json", f):
+            P[f[:-5]] = json.load(open(os.path.join(d, f)))
+    return P
+
+
+def assemble_known():
+    """known_findings.d/*.json (one finding per file, committed by hand) -> known_findings.json (committed)."""
+    d = os.path.join(VERIF, "known_findings.d")
+    out = []
+    for f in sorted(os.listdir(d)):
+        if f.endswith(".json"):
+            e = json.load(open(os.path.join(d, f)))
+            out.extend(e if isinstance(e, list) else [e])
+    data = {"comment": "Assembled by tools/mkmanifest.py from known_findings.d/*.json (each committed by hand); never "
+                       "written at check time. status=known entries are reported as KNOWN-FINDING and do not fail the "
+                       "check; status=fixed entries suppress nothing.",
+            "findings": out}
+    with open(os.path.join(VERIF, "known_findings.json"), "w") as f:
+        json.dump(data, f, indent=1)
+        f.write("\n")
+
+
+P = load_meta()
 
 ALL = ["C%02d" % i for i in range(1, 21)]
 
@@ -53,7 +60,7 @@ def manifest():
                 "evidence_file": f"/verif/evidence/{pid}.json",
                 "replay_cmd_template": f"./check {pid} --replay {{path}}",
                 "engine": "coq+oracle+harness",
-                "level_claimed": {"category": "proof", "text": d["text"], "design_ref": "DESIGN.md section " + d["design"]},
+                "level_claimed": {"category": d.get("category", "proof"), "text": d["text"], "design_ref": "DESIGN.md section " + d["design"]},
                 "level_note": BASE_NOTE.format(pid=pid) + d["note"],
                 "technique": d["technique"],
             })
@@ -116,6 +123,7 @@ if __name__ == "__main__":
         validate()
         print("MANIFEST-OK")
     else:
+        assemble_known()
         with open(os.path.join(VERIF, "MANIFEST.json"), "w") as f:
             json.dump(manifest(), f, indent=1)
             f.write("\n")
